@@ -44,7 +44,8 @@ ASSUMPTIONS = [
 	"both conventions in use (L+1-k in shuffle, slicing L-k in "
 	"dinucleotide_shuffle) imply",
 ]
-REQUIRED = {"numpy_int_seed_calls": 20, "negative_end_calls": 20, "long_region_calls": 8,
+REQUIRED = {"numpy_int_seed_calls": 20, "negative_end_calls": 20,
+	"layout_differential_calls": 50, "long_region_calls": 8,
 	"walks_enumerated": 50, "dinuc_returned": 50,
 	"shuffle_returned": 50}
 TIMEOUT = {"quick": 900, "thorough": 5400}
@@ -151,6 +152,17 @@ def case_api(cls, params, rec):
 			rec.violation(cls, params, d, mech="C02/" + (
 				"composition" if "counts" in d["what"] or "first" in d["what"]
 				else "flank" if "outside" in d["what"] else "not-one-hot"))
+			return
+	if params["seed"] is not None and xbase is not None:
+		# the result is a function of the VALUES of the input: the same
+		# values in an ordinary contiguous tensor give the same shuffles
+		stc, valc = gen.call(f, X.contiguous().clone(), **kw)
+		rec.count("layout_differential_calls")
+		if stc != "ok" or not torch.equal(val, valc):
+			rec.violation(cls, params, {"what": "same values, same integer "
+				"seed, other memory layout (%s): different result" %
+				params["layout"], "contiguous_call": stc}, mech=
+				"C02/layout-dependent")
 			return
 	if params["seed"] is not None and params.get("determinism", True):
 		# unrelated draws from both generators in between
